@@ -420,7 +420,7 @@ func runCase(w *tr.Writer, c *tcase, src string) bool {
 			ev3["obs"] = []int{}
 			return
 		}
-		_, labels2, _ := observe(a2, append(append([]string{}, names...)))
+		_, labels2, _ := observe(a2, append([]string{}, names...))
 		// names that stayed free keep their index; fresh names of the first round are now ordinary declared names
 		ev3["obs"] = labels2
 		if !iso(exp, labels2) {
